@@ -474,12 +474,13 @@ def C06(tier):
 
 
 def C03(tier):
+    import os as _os0
     import json as _json
     import subprocess as _sp
 
     def pre():
         n = "quick" if tier == "quick" else "thorough"
-        p = _sp.run(["python3-vt", "/verif/peg/check.py", n], stdout=_sp.PIPE, stderr=_sp.PIPE, text=True)
+        p = _sp.run(["python3-vt", _os0.path.join(_driver.VERIF, "peg/check.py"), n], stdout=_sp.PIPE, stderr=_sp.PIPE, text=True)
         if p.returncode != 0:
             return {"inconclusive": ["peg/check.py failed: " + p.stderr[-800:]]}
         r = _json.loads(p.stdout)
